@@ -19,8 +19,11 @@ macro_rules! registry {
     };
 }
 
+pub mod dimprog;
+
 registry! {
     "BENCH" => bench,
+    "C02" => c02,
     "C03" => c03,
     "C04" => c04,
     "C05" => c05,
